@@ -571,6 +571,24 @@ impl Real {
                     "bad-op".into()
                 }
             }
+            ["forge", a, b, kind] => {
+                // a copy of a user key whose bytes were altered outside the library (kept for later `refresh` lines)
+                let (Some(i), Some(j)) = (handle('U', a), handle('U', b)) else { return "bad-op".into() };
+                let Some(Some(u)) = self.usks.get(i) else {
+                    set_slot(&mut self.usks, j, None);
+                    return "ok none".into();
+                };
+                let mut w = WUsk::read(&u.serialize().unwrap()).expect("harness cannot parse USK bytes");
+                let changed = match *kind {
+                    "sig" => match w.signature.as_mut() { Some(s) => { s.iter_mut().for_each(|b| *b = 0x5a); true } None => false },
+                    "strip" => { if w.signature.is_some() { w.signature = None; true } else { false } }
+                    "drop" => match w.secrets.iter().position(|(r, _)| r.is_empty()) { Some(p) => { w.secrets.remove(p); true } None => false },
+                    _ => return "bad-op".into(),
+                };
+                let v = if changed { UserSecretKey::deserialize(&w.write()).expect("forged USK bytes do not parse") } else { u.clone() };
+                set_slot(&mut self.usks, j, Some(v));
+                if changed { "ok forged".into() } else { "ok unchanged".into() }
+            }
             ["roundtrip", h] => {
                 if let Some(i) = handle('M', h) {
                     if let Some(Some(m)) = self.msks.get(i) {
